@@ -236,6 +236,9 @@ func (r *Run) reportN(class, msg string, replay any, mult int) {
 		return
 	}
 	dir := filepath.Join(Root, "replays", r.ID)
+	if os.Getenv("VERIF_SKIP_EVIDENCE") != "" {
+		dir = filepath.Join(os.TempDir(), "verif-trial-replays", r.ID)
+	}
 	_ = os.MkdirAll(dir, 0o755)
 	p := filepath.Join(dir, name)
 	_ = os.WriteFile(p, b, 0o644)
@@ -326,7 +329,7 @@ func (r *Run) Finish() {
 	}
 	v := r.violations
 	r.mu.Unlock()
-	if r.Replay == "" {
+	if r.Replay == "" && os.Getenv("VERIF_SKIP_EVIDENCE") == "" {
 		b, _ := json.MarshalIndent(e, "", " ")
 		p := filepath.Join(Root, "evidence", r.ID+".json")
 		_ = os.MkdirAll(filepath.Dir(p), 0o755)
